@@ -98,7 +98,14 @@ def cases_for(prop, tier, seed):
                  for kind in ("replay", "behavior", "plain", "async") for idx in (0, 1, 2)
                  for j, pre in enumerate(([], [["hnext", "a", "1"]], [["hnext", "a", "1"], ["hnext", "a", "2"], ["hnext", "a", "3"]]))])
     if prop == "C13":
-        return gen.fam_connectables(g, "C13-conn", 150 * k) + gen.fam_conn_reentrant(g, "C13-re", 0) + gen.fam_late_unsub(g, "C13-late")
+        return (gen.fam_connectables(g, "C13-conn", 150 * k) + gen.fam_conn_reentrant(g, "C13-re", 0) + gen.fam_late_unsub(g, "C13-late") +
+                # a LATE subscriber of replay() / ref_count() / publish() that makes the hot source emit while it is still being
+                # handed the history: every subscriber still gets every item once
+                [gen.case("C13-lp-%s-%d-%d" % (kind, idx, j), [["subject", "a", "plain"], ["conn", "x", kind, ["ref", "a"]], ["sub", ["ref", "x"], gen.NOREACT]] +
+                          ([["connect", "x"]] if kind == "publish" else []) + pre +
+                          [["sub", ["ref", "x"], ["react", [str(idx), ["hnext", "a", "9"]]]], ["hnext", "a", "5"], ["sub", ["ref", "x"], gen.NOREACT], ["hcomplete", "a"]])
+                 for kind in ("replay", "ref_count", "publish") for idx in (0, 1, 2)
+                 for j, pre in enumerate(([], [["hnext", "a", "1"]], [["hnext", "a", "1"], ["hnext", "a", "2"], ["hnext", "a", "3"]]))])
     if prop == "C14":
         return gen.fam_resubscribe(g, "C14-resub", 100 * k)
     if prop == "C17":
